@@ -20,10 +20,12 @@ that talks to the driver (a "primitive", discovered at run time) is wrapped by a
 
 The verdict is on captured statements only.
 """
+import atexit
 import copy
 import inspect
 import json
 import os
+import shutil
 import tempfile
 
 from vlib import cypher_lex as L
@@ -157,6 +159,7 @@ def install(ctx):
     M.hub.responder = lambda top, text, params, ordinal: M.ops.answer(
         top[0], getattr(top[1].get('self'), 'graph_id', None), top[1].get('kw', {}), ordinal)
     M.tmpdir = tempfile.mkdtemp(prefix='c19-import-')
+    atexit.register(shutil.rmtree, M.tmpdir, True)
     for cname, cls in _classes().items():
         prefix = 'importer.' if cname == 'Neo4jGraphImporter' else ''
         for name, fn in list(vars(cls).items()):
